@@ -84,6 +84,8 @@ pub struct NetCfg {
     #[serde(default)]
     pub spawn_yield: u32,
     #[serde(default)]
+    pub lock_yield: u32,
+    #[serde(default)]
     pub udp_icmp: bool,
 }
 
@@ -278,6 +280,7 @@ pub async fn boot() -> Option<i32> {
         backend: if plan.net.backend == "kernel" { sim::Backend::Kernel } else { sim::Backend::Mem },
         chaos: plan.net.chaos.to_sim(),
         spawn_yield: plan.net.spawn_yield,
+        lock_yield: plan.net.lock_yield,
         udp_icmp: plan.net.udp_icmp,
         ..Default::default()
     };
